@@ -52,6 +52,7 @@ def talkStep (st : TalkSt) (toks : List String) : TalkSt × String :=
       let (w', _, outs) := st.w.step (.use (nat! i - 1) .dropOnly)
       ({ st with w := w' }, line (showResps (outs.map (·.2))))
     | _ => (st, "noop")
+  | ["tsleep"] => (st, "ok")  -- time passing changes nothing: a request is answered whenever it is dropped
   | ["tshutdown"] =>
     let (w', _, _) := st.w.step .shutdown
     ({ st with w := w' }, "ok")
